@@ -9,7 +9,7 @@ import Cellml.C11.Rewrite
     The recursive call `self._print(x)` is NOT bound here: the generated definitions take it as a parameter
     `print : E → Except PyErr String` (open recursion). Core Lean only. -/
 
-namespace Cellml.Tie
+namespace Cellml.Tie.PPrinter
 open C11
 
 /-- python `+` on strings -/
@@ -145,4 +145,4 @@ def arg0 : E → E
   | .pow b _ => b
   | _ => .nil
 
-end Cellml.Tie
+end Cellml.Tie.PPrinter
